@@ -205,3 +205,12 @@ Definition chk_fault (ast : jsonF) (observed : N) : N :=
 (** the implementation's defaults / field names against the model's schema *)
 Definition chk_defaults (impl : settings) (names : list string) : N :=
   b2n (settings_eqb impl defaultsF && list_eqb String.eqb names schema_namesF).
+
+(** the two sites of an enum-like string setting, observed directly on the implementation:
+    [which] 0 = direct_solve_method, 1 = chordal_decomposition_merge_method;
+    [validator] = DefaultSettings::validate() accepts the name, [builder] = the builder does,
+    [consumer] = DefaultSolver::new on a problem that reaches the consumer does not panic *)
+Definition chk_sites (which : N) (s : string) (validator builder consumer : bool) : N :=
+  let vm := if (which =? 0)%N then validator_solve_method_ok s else validator_merge_method_ok s in
+  let cm := if (which =? 0)%N then consumer_solve_method_ok s else consumer_merge_method_ok s in
+  b2n (Bool.eqb vm validator && Bool.eqb vm builder && Bool.eqb cm consumer).
